@@ -47,7 +47,24 @@ def case_assembly(rng, tier):
     loads = [gen.load_triple(rng) for _ in ad['panels']]
     c = Case({'obj': 'assembly', 'assembly': ad, 'loads': loads})
     c.tag('obj:assembly')
-    ass, ps, conn = gen.build_assembly(ad)
+    preused = bool(rng.random() < 0.3)
+    if preused:
+        # panels that already lived a life of their own (evaluated stand-alone with other series orders) before they were given
+        # their final definition and assembled: the assembly is that of the panels as they are defined when it is built
+        from compmech.panel.assembly import PanelAssembly
+        c.tag('panels:pre-used')
+        ps = [gen.build_panel(d) for d in ad['panels']]
+        for p_, d_ in zip(ps, ad['panels']):
+            p_.m, p_.n = d_['m'] + int(rng.integers(1, 3)), d_['n'] + int(rng.integers(0, 3))
+            p_.calc_k0(silent=True); p_.calc_kM(silent=True); p_.get_size()
+            p_.m, p_.n = d_['m'], d_['n']
+        conn = []
+        for cn_ in ad['conns']:
+            cc_ = dict(cn_); cc_['p1'] = ps[cn_['p1']]; cc_['p2'] = ps[cn_['p2']]
+            conn.append(cc_)
+        ass = PanelAssembly([ps[i] for i in ad['order']], conn=conn if conn else None)
+    else:
+        ass, ps, conn = gen.build_assembly(ad)
     for p, N in zip(ps, loads):
         p.Nxx, p.Nyy, p.Nxy = N
         p.add_force(float(rng.uniform(0, p.a)), float(rng.uniform(0, p.b)), *[float(v) for v in rng.normal(size=3)])
